@@ -14,7 +14,7 @@ RULE = (
     "fan-out and fan-in) / add_order_link / delete_link (existing and absent) / delete_node (leaf, non-root) / "
     "insert_hugr (second generated store, possibly with holes or after add/delete churn with index reuse) on one "
     "Hugr; operands are selectors modulo the live set; dense-links sub-check: few nodes, parallel and fan-in links on "
-    "offsets 0..1, then deletions; insert-churn sub-check: hosts and inserted HUGRs after churn. Oracle = sequential model (nodes with parent/children/metadata, link multiset); after every step all "
+    "offsets 0..1, then deletions; churn sub-check: deep hierarchies under add/delete churn; insert-churn sub-check: hosts and inserted HUGRs after churn. Oracle = sequential model (nodes with parent/children/metadata, link multiset); after every step all "
     "queries are compared: iteration, len, lookup/KeyError, parent, children order, links() multiset, linked_ports "
     "from both ends, incoming/outgoing link and order-link listings, has_link, port counts >= max(requested, highest "
     "offset in use + 1); returned indices are never live. Non-trivial = history with a deletion on a multi-linked "
@@ -101,6 +101,7 @@ def make_machine(feed):
 SUBS = [
     Sub("history", check, fuzz_runs=5000, strategy=lambda tier: store.history_strategy(40 if tier == "quick" else 60), nontrivial=nontrivial, classes=classes, n_quick=400, n_thorough=2500),
     Sub("dense-links", check, fuzz_runs=4000, strategy=lambda tier: store.dense_history_strategy(25 if tier == "quick" else 40), nontrivial=nontrivial, classes=classes, n_quick=300, n_thorough=2000),
+    Sub("churn", check, fuzz_runs=3000, strategy=lambda tier: store.churn_strategy(30 if tier == "quick" else 50), nontrivial=nontrivial, classes=classes, n_quick=250, n_thorough=2000),
     Sub("insert-churn", check, fuzz_runs=3000, strategy=lambda tier: store.insert_churn_strategy(12 if tier == "quick" else 20), nontrivial=nontrivial, classes=classes, n_quick=150, n_thorough=1000),
     Sub("machine", check, machine=make_machine, nontrivial=nontrivial, classes=classes, n_quick=100, n_thorough=600),
 ]
